@@ -208,6 +208,9 @@ func (v *version) Validate() error {
 	if v.avatarURL != "" && !text.ValidUrl(v.avatarURL) {
 		return fmt.Errorf("avatarUrl is not a valid URL")
 	}
+	if !text.SafeOneLine(v.avatarURL) {
+		return fmt.Errorf("avatarUrl has unsafe characters")
+	}
 
 	if len(v.nonce) > 64 {
 		return fmt.Errorf("nonce is too big")
@@ -227,6 +230,13 @@ func (v *version) Validate() error {
 	for key, val := range v.metadata {
 		if !utf8.ValidString(key) || !utf8.ValidString(val) {
 			return fmt.Errorf("metadata is not valid UTF-8")
+		}
+		// same rule as for the metadata of operations
+		if !text.SafeOneLine(key) {
+			return fmt.Errorf("metadata key has unsafe characters")
+		}
+		if !text.Safe(val) {
+			return fmt.Errorf("metadata value has unsafe characters")
 		}
 	}
 
